@@ -75,3 +75,22 @@ def sig_of(ans):
         return None
     v = ans.split()[1]
     return None if v == "none" else v
+
+
+def craft_sk(s, sk_hex, m, frac=1.0, rng=None):
+    """secret key whose first m t0 polynomials carry extreme coefficients (+4096 / -4095) in a fraction `frac` of
+    the positions: reaches the ||c t0|| and hint-count rejections that honest keys reach with negligible probability.
+    Everything else (rho, K, tr, s1, s2) is kept, so the key still encodes and decodes."""
+    p = S.P(s)
+    sk = bytearray(bytes.fromhex(sk_hex))
+    off = 64 + p.tr + p.polyeta * (p.k + p.l)
+    for i in range(m):
+        old = S.bit_unpack(bytes(sk[off + 416 * i: off + 416 * (i + 1)]), 4096, 13)
+        new = []
+        for j in range(256):
+            if rng is None or rng.random() < frac:
+                new.append((4096 if j % 2 == 0 else -4095) if rng is None else rng.choice((4096, -4095)))
+            else:
+                new.append(old[j])
+        sk[off + 416 * i: off + 416 * (i + 1)] = S.bit_pack(new, 4096, 13)
+    return bytes(sk).hex()
